@@ -258,9 +258,21 @@ def run_model(cases_text, jobs=None):
     if jobs <= 1 or total < 200_000:
         return _run_model_one(cases_text)
     target = total // (jobs * 4) + 1
+    # a cut is allowed before an M / X line, and before a stateless operation when only stateless
+    # operations follow up to the next M / X line (so no operation is separated from its mapping)
+    free = {"R", "FR", "TH", "HU", "HT", "HL", "HC", "HP", "HN", "HB", "HE", "HD", "HW", "A", "V", "E1", "E5", "E6", "NOP"}
+    is_ctx = lambda l: l.startswith("M ") or l.startswith("X ")
+    safe = [False] * (len(lines) + 1)
+    safe[len(lines)] = True
+    for i in range(len(lines) - 1, -1, -1):
+        l = lines[i]
+        if is_ctx(l):
+            safe[i] = True
+        else:
+            safe[i] = l.split(" ", 1)[0] in free and safe[i + 1]
     chunks, cur, size = [], [], 0
-    for l in lines:
-        if (l.startswith("M ") or l.startswith("X ") or re.match(r'E\d ', l)) and size >= target:
+    for i, l in enumerate(lines):
+        if safe[i] and size >= target:
             chunks.append(cur)
             cur, size = [], 0
         cur.append(l)
@@ -459,7 +471,8 @@ def step_correspondence(prop, tier, seed, harness, replay=None):
         for i, c in enumerate(cases):
             if c == "W" and i < len(impl0):
                 wv = kv(impl0[i]).get("w", "")
-                if wv.startswith("x"):
+                # the extracted decoder is quadratic (7 min for 540 kB): files up to 300 kB are decoded
+                if wv.startswith("x") and len(wv) <= 600_000:
                     vidx.append(i)
                     vlines.append("V " + wv)
         if vlines:
